@@ -59,8 +59,16 @@ pub async fn process_uplink_packet(
                     conn.reconnection.mark_success(&conn.label);
                 }
                 RegistrationEvent::RegErr => {
-                    conn.connected = false;
-                    conn.last_received = None;
+                    // The receiver rejected this link, so it is no longer
+                    // registered. Soft-reset it (disconnected, back in the
+                    // Registering phase, immediately due for re-registration)
+                    // rather than only clearing `connected`: a later datagram
+                    // on this socket refreshes `last_received`, and a link that
+                    // is disconnected but still schedulable and "not timed
+                    // out" gets picked by enhanced selection and counts as the
+                    // healthy alternative that lets the stall guard gate the
+                    // last usable link.
+                    conn.mark_for_recovery();
                 }
                 RegistrationEvent::Reg2 => {}
             }
